@@ -115,3 +115,15 @@ def member(ex, se, x, xs, lo=None, hi=None):
     k = z3.Int(fresh_name("mk"))
     xv = x.val if isinstance(x, VOpt) else x
     return VBool(z3.Exists([k], z3.And(l <= k, k < h, s.comps[0][k] == xv.t)))
+
+
+@spec_fn("index_of")
+def index_of(ex, se, xs, x):
+    """First index of x in the list (as list.index): an index term r with xs[r] == x and no earlier occurrence, when x occurs."""
+    s = _seq_of(ex, se, xs)
+    r = z3.Int(fresh_name("idx"))
+    j = z3.Int(fresh_name("j"))
+    occurs = z3.Exists([j], z3.And(0 <= j, j < s.n, s.comps[0][j] == x.t))
+    se.facts.append(z3.Implies(occurs, z3.And(0 <= r, r < s.n, s.comps[0][r] == x.t,
+                                              z3.ForAll([j], z3.Implies(z3.And(0 <= j, j < r), s.comps[0][j] != x.t)))))
+    return VInt(r)
